@@ -11,6 +11,7 @@ mod ctx;
 mod enc;
 mod entry;
 mod guard;
+mod record;
 mod replay;
 
 use std::io::{BufRead, Write};
@@ -103,6 +104,32 @@ fn main() {
             }
             let summary = st.summary();
             std::fs::write(&out, serde_json::to_string_pretty(&summary).unwrap()).expect("write summary");
+        },
+        Some("record") => {
+            use rand::SeedableRng;
+            let gen = arg(&args, "--gen").expect("--gen");
+            let seed: u64 = arg(&args, "--seed").and_then(|s| s.parse().ok()).unwrap_or(1);
+            let n: usize = arg(&args, "--n").and_then(|s| s.parse().ok()).unwrap_or(1000);
+            let out = arg(&args, "--out").expect("--out");
+            let primreq = arg(&args, "--primreq").unwrap_or_else(|| format!("{out}.primreq.json"));
+            let mut rec = record::Recorder::new(&out);
+            let mut rng = rand::rngs::StdRng::seed_from_u64(seed);
+            let run = move || {
+                match gen.as_str() {
+                    "ops" => record::gen_ops(&mut rec, &mut rng, n),
+                    "programs" => record::gen_programs(&mut rec, &mut rng, n),
+                    "histories" => record::gen_histories(&mut rec, &mut rng, n),
+                    "fuzz" => record::gen_fuzz(&mut rec, &mut rng, n),
+                    other => {
+                        eprintln!("unknown generator {other}");
+                        std::process::exit(2);
+                    },
+                }
+                let events = rec.events;
+                rec.finish(&primreq);
+                println!("{events}");
+            };
+            std::thread::Builder::new().stack_size(256 << 20).spawn(run).expect("spawn").join().expect("recorder thread");
         },
         Some("probe-lenunit") => {
             // the unit `len` counts in: a model parameter of Builtins.tla
